@@ -167,6 +167,46 @@ def map_job(job):
     return out
 
 
+def coarse_job(job):
+    """A step so coarse for the state that the stage solve fails at the requested size: whatever step the method hands back as accepted is
+    the method's map OF THE SIZE IT REPORTS - a fresh integrator asked for exactly that size takes it at once and arrives at the same state
+    (an unconverged retry handed back as accepted is no map of the method at all, let alone a symplectic one)."""
+    import desolver as de
+    name, h = job
+    f, H, linear = hamiltonians()["pend"]
+    cls = getattr(de.integrators, name)
+    dt = np.dtype("float64")
+    tol = 1e-11
+    out = {"kind": "coarse", "name": name, "ham": "pend", "h": h, "layout": "default", "via": "direct", "observedCoarse": 0, "shortTolUnits": 0, "gaveUp": 0}
+    try:
+        rhs = de.DiffRHS(f)
+        worst = 0
+        seen = 0
+        for y0 in (np.array([0.3, -0.2, 0.8, 0.4]), np.array([2.5, 0.7, 1.5, -0.3]), np.array([-1.1, 2.9, 0.5, 1.3]), np.array([3.0, -2.0, 1.0, 2.0])):
+            try:
+                r = cls((4,), dtype=dt, rtol=tol, atol=tol)(rhs, np.asarray(0.0, dtype=dt), y0.astype(dt), {}, np.asarray(h, dtype=dt))
+            except de.exception_types.FailedToMeetTolerances:
+                out["gaveUp"] += 1
+                continue
+            dT, y1 = r[1][0], y0 + np.asarray(r[1][1])
+            if num.frac(dT) == num.frac(np.asarray(h, dtype=dt)):
+                continue            # taken at the requested size: the ordinary map cases cover it
+            try:
+                r2 = cls((4,), dtype=dt, rtol=tol, atol=tol)(rhs, np.asarray(0.0, dtype=dt), y0.astype(dt), {}, np.asarray(dT, dtype=dt))
+            except de.exception_types.FailedToMeetTolerances:
+                continue
+            if num.frac(r2[1][0]) != num.frac(dT):
+                continue            # does not converge at that size from a cold start either: nothing to compare with
+            seen += 1
+            y1b = y0 + np.asarray(r2[1][1])
+            gap = float(np.max(np.abs(y1b - y1))) / (1000 * tol * max(1.0, float(np.max(np.abs(y1)))))
+            worst = max(worst, int(min(num.CAP, math.ceil(gap))) if np.isfinite(gap) else num.CAP)
+        out.update(observedCoarse=seen, shortTolUnits=worst)
+    except Exception as e:      # noqa
+        out.update(error="%s: %s" % (type(e).__name__, str(e)[:120]), shortTolUnits=num.CAP)
+    return out
+
+
 def energy_job(job):
     import desolver as de
     name, ham, h, nsteps, layout = job
@@ -261,7 +301,10 @@ def check(run, replay=None):
             ejobs.append((n, ham, 0.125 if n in SPLIT else 0.2, (4000 if thorough else 1200) if n in SPLIT else (1500 if thorough else 400), "default"))
         if n in SPLIT:
             ejobs.append((n, "pend", 0.125, 1200, "interleaved"))
-    obs = core.pool_map(map_job, jobs) + core.pool_map(energy_job, ejobs) + structure_cases()
+    cjobs = [(n, h) for n in RKSYMP for h in (3.0, -3.0, 4.0, 8.0, -8.0) + ((12.0, -4.0, 6.0) if thorough else ())]
+    cobs = core.pool_map(coarse_job, cjobs)
+    run.notes["coarse_steps_compared"] = sum(o["observedCoarse"] for o in cobs)
+    obs = core.pool_map(map_job, jobs) + core.pool_map(energy_job, ejobs) + structure_cases() + cobs
     for k, o in enumerate(obs):
         o["id"] = k
         run.evaluations += 1
@@ -272,7 +315,7 @@ def check(run, replay=None):
                           "energyGrowth": max(o.get("growth", 0) for o in obs)}
     run.sample({"map_case": obs[0], "energy_case": obs[len(jobs)]})
     defaults = {"observed": True, "linear": False, "split": False, "stages": 1, "sympUnits": 0, "sympClass": -99, "revUnits": 0, "revTolUnits": 0, "maskOk": True,
-                "growth": 0, "driftIds": [], "kickIds": [], "driftSumUnits": 0, "kickSumUnits": 0, "mUnits": 0}
+                "growth": 0, "driftIds": [], "kickIds": [], "driftSumUnits": 0, "kickSumUnits": 0, "mUnits": 0, "shortTolUnits": 0}
     payload = []
     for o in obs:
         c = dict(defaults)
